@@ -280,12 +280,16 @@ theorem served_implies_policy (w : World) (h : Hello) (name : Bytes) (now : Int)
 theorem tokenPath_valid (w : World) (name : Bytes) (now : Int) (c : Cert)
     (hr : (tokenPath w name now).2.1.cert? = some c) : validCert ⟨name, false, true⟩ c now = true := by
   unfold tokenPath at hr
-  cases hg : cacheGet w.cache ⟨name, false, true⟩ now with
-  | ok c' =>
-    simp only [hg, Res.cert?, Option.some.injEq] at hr
-    subst hr; exact cacheGet_ok_valid _ _ _ _ hg
-  | miss => simp [hg, Res.cert?] at hr
-  | err => simp [hg, Res.cert?] at hr
+  cases ht : w.tokens.lookup name with
+  | some t => simp [ht, Res.cert?] at hr
+  | none =>
+    simp only [ht] at hr
+    cases hg : cacheGet w.cache ⟨name, false, true⟩ now with
+    | ok c' =>
+      simp only [hg, Res.cert?, Option.some.injEq] at hr
+      subst hr; exact cacheGet_ok_valid _ _ _ _ hg
+    | miss => simp [hg, Res.cert?] at hr
+    | err => simp [hg, Res.cert?] at hr
 
 theorem issue_valid (w : World) (ck : CertKey) (now : Int) (c : Cert)
     (hr : (issue w ck now).2.1.cert? = some c) : validCert ck c now = true := by
@@ -414,7 +418,11 @@ theorem state_entries_valid_when_added (w : World) (h : Hello) (a : Option Bytes
         · exact Or.inr ⟨name, rfl, h1, h2⟩
     · simp only [hw, if_true] at hin
       unfold tokenPath at hin
-      cases hg : cacheGet w.cache ⟨name, false, true⟩ now <;> simp [hg] at hin <;> exact Or.inl hin
+      cases ht : w.tokens.lookup name with
+      | some t => simp [ht] at hin; exact Or.inl hin
+      | none =>
+        simp only [ht] at hin
+        cases hg : cacheGet w.cache ⟨name, false, true⟩ now <;> simp [hg] at hin <;> exact Or.inl hin
 
 theorem getEv_no_order (w : World) (ck : CertKey) : (getEv w ck).filter isOrder = [] := by
   unfold getEv; cases w.cache <;> simp [isOrder]
@@ -467,7 +475,233 @@ theorem order_needs_absent_state (w : World) (h : Hello) (a : Option Bytes) (now
         cases he
         exact (lookupOrIssue_orders w _ now).2 hsome
     · simp only [if_true, tokenPath]
-      cases hg : cacheGet w.cache ⟨name, false, true⟩ now <;> simp [getEv_no_order]
+      cases ht : w.tokens.lookup name with
+      | some t => simp
+      | none => cases hg : cacheGet w.cache ⟨name, false, true⟩ now <;> simp [getEv_no_order]
+
+/-! ### challenge certificates (tls-alpn-01) -/
+
+theorem tokenPath_kinds (w : World) (name : Bytes) (now : Int) :
+    (∀ c, (tokenPath w name now).2.1 = .tokenMem c → w.tokens.lookup name = some c) ∧
+    (∀ c, (tokenPath w name now).2.1 = .token c → validCert ⟨name, false, true⟩ c now = true) ∧
+    (∀ c, (tokenPath w name now).2.1 ≠ .served c ∧ (tokenPath w name now).2.1 ≠ .issued c) ∧
+    (tokenPath w name now).2.2 = w.state ∧
+    (∀ e ∈ (tokenPath w name now).1, ∃ k, e = Ev.get k) := by
+  unfold tokenPath
+  cases ht : w.tokens.lookup name with
+  | some t => simp
+  | none =>
+    simp only
+    have hev : ∀ e ∈ getEv w ⟨name, false, true⟩, ∃ k, e = Ev.get k := by
+      intro e he; unfold getEv at he; cases hc : w.cache <;> simp [hc] at he; exact ⟨_, he⟩
+    cases hg : cacheGet w.cache ⟨name, false, true⟩ now with
+    | ok c' =>
+      refine ⟨by simp, ?_, by simp, rfl, hev⟩
+      intro c hc; simp only [Res.token.injEq] at hc; subst hc
+      exact cacheGet_ok_valid _ _ _ _ hg
+    | miss => exact ⟨by simp, by simp, by simp, rfl, hev⟩
+    | err => exact ⟨by simp, by simp, by simp, rfl, hev⟩
+
+theorem lookupOrIssue_no_token (w : World) (ck : CertKey) (now : Int) (c : Cert) :
+    (lookupOrIssue w ck now).2.1 ≠ .token c ∧ (lookupOrIssue w ck now).2.1 ≠ .tokenMem c := by
+  unfold lookupOrIssue
+  cases hs : w.state.lookup ck.str with
+  | some sv => cases sv <;> simp
+  | none =>
+    cases hg : cacheGet w.cache ck now with
+    | ok c' => simp
+    | err => simp
+    | miss =>
+      simp only [issue]
+      cases hca : w.ca ck with
+      | none => simp
+      | some c' => by_cases hv : validCert ck c' now <;> simp [hv]
+
+/-- **token_path_only_for_challenge_names.** A challenge (tls-alpn-01) certificate is handed out only to
+    a hello that offers exactly the `acme-tls/1` protocol, and only the one stored for that very name:
+    the entry of `m.certTokens[name]` (the challenge being validated), or the cache entry
+    `name+token` after it passed `validCert`. A challenge hello in turn never obtains a regular
+    certificate, never reaches the CA or the host policy, and leaves `m.state` untouched — the host
+    policy is bypassed for challenge certificates only. -/
+theorem token_path_only_for_challenge_names (w : World) (h : Hello) (a : Option Bytes) (now : Int) :
+    (∀ c, (getCertificate w h a now).2.1 = .tokenMem c ∨ (getCertificate w h a now).2.1 = .token c →
+        wantsTokenCert h = true ∧ ∃ name, a = some name ∧
+          (w.tokens.lookup name = some c ∨ validCert ⟨name, false, true⟩ c now = true)) ∧
+    (wantsTokenCert h = true →
+        (∀ c, (getCertificate w h a now).2.1 ≠ .served c ∧ (getCertificate w h a now).2.1 ≠ .issued c) ∧
+        (getCertificate w h a now).2.2 = w.state ∧
+        (∀ e ∈ (getCertificate w h a now).1, ∃ k, e = Ev.get k)) := by
+  unfold getCertificate
+  cases hn : nameOK h
+  · simp
+  simp only [Bool.not_true, Bool.false_eq_true, if_false]
+  cases a with
+  | none => simp
+  | some name =>
+    simp only
+    cases hw : wantsTokenCert h
+    · simp only [Bool.false_eq_true, if_false]
+      refine ⟨?_, by simp⟩
+      intro c hc
+      cases hp : policyOK w name
+      · simp [hp] at hc
+      · simp only [hp, Bool.not_true, Bool.false_eq_true, if_false] at hc
+        have := lookupOrIssue_no_token w (certKeyOf h name) now c
+        rcases hc with hc | hc
+        · exact absurd hc this.2
+        · exact absurd hc this.1
+    · simp only [if_true]
+      have hk := tokenPath_kinds w name now
+      refine ⟨?_, fun _ => ⟨hk.2.2.1, hk.2.2.2.1, hk.2.2.2.2⟩⟩
+      intro c hc
+      refine ⟨by trivial, name, rfl, ?_⟩
+      rcases hc with hc | hc
+      · exact Or.inl (hk.1 c hc)
+      · exact Or.inr (hk.2.1 c hc)
+
+/-! ### what the property demands of the in-memory path (`conform`) -/
+
+theorem lookupOrIssue_kinds (w : World) (ck : CertKey) (now : Int) (c : Cert) :
+    ((lookupOrIssue w ck now).2.1 = .issued c → validCert ck c now = true) ∧
+    ((lookupOrIssue w ck now).2.1 = .served c →
+        w.state.lookup ck.str = some (.ready c) ∨ validCert ck c now = true) := by
+  unfold lookupOrIssue
+  cases hs : w.state.lookup ck.str with
+  | some sv =>
+    cases sv with
+    | ready c' => simp; intro hc; exact Or.inl hc
+    | failed => simp
+  | none =>
+    cases hg : cacheGet w.cache ck now with
+    | ok c' =>
+      refine ⟨by simp, ?_⟩
+      intro hc; simp only [Res.served.injEq] at hc; subst hc
+      exact Or.inr (cacheGet_ok_valid _ _ _ _ hg)
+    | err => simp
+    | miss =>
+      simp only
+      refine ⟨?_, ?_⟩
+      · intro hc
+        exact issue_valid w ck now c (by rw [hc]; rfl)
+      · intro hc
+        unfold issue at hc
+        cases hca : w.ca ck with
+        | none => simp [hca] at hc
+        | some c' => by_cases hv : validCert ck c' now <;> simp [hca, hv] at hc
+
+theorem getCertificate_kinds (w : World) (h : Hello) (a : Option Bytes) (now : Int) (c : Cert) :
+    ((getCertificate w h a now).2.1 = .issued c → ∃ name, a = some name ∧ validCert (certKeyOf h name) c now = true) ∧
+    ((getCertificate w h a now).2.1 = .served c → ∃ name, a = some name ∧
+        (w.state.lookup (certKeyOf h name).str = some (.ready c) ∨ validCert (certKeyOf h name) c now = true)) := by
+  unfold getCertificate
+  cases hn : nameOK h
+  · simp
+  simp only [Bool.not_true, Bool.false_eq_true, if_false]
+  cases a with
+  | none => simp
+  | some name =>
+    simp only
+    cases hw : wantsTokenCert h
+    · simp only [Bool.false_eq_true, if_false]
+      cases hp : policyOK w name
+      · simp
+      · simp only [Bool.not_true, Bool.false_eq_true, if_false]
+        have := lookupOrIssue_kinds w (certKeyOf h name) now c
+        exact ⟨fun hc => ⟨name, rfl, this.1 hc⟩, fun hc => ⟨name, rfl, this.2 hc⟩⟩
+    · simp only [if_true]
+      have hk := (tokenPath_kinds w name now).2.2.1 c
+      exact ⟨fun hc => absurd hc hk.2, fun hc => absurd hc hk.1⟩
+
+/-- **served_cert_valid, full statement, for the behaviour the property demands.** With the stale-entry
+    rule of `conform`, every regular certificate returned — from `m.state`, the cache or the CA, for any
+    content of `m.state` — is valid at the clock of the call; challenge certificates from the cache
+    likewise. (`getCertificate` itself satisfies this only when the state has no entry: see
+    `served_cert_valid`, `state_serves_expired`.) -/
+theorem conform_cert_valid (w : World) (h : Hello) (a : Option Bytes) (now : Int) (c : Cert)
+    (hr : (conform w h a now).2.1.cert? = some c) :
+    ∃ name, a = some name ∧
+      (validCert (certKeyOf h name) c now = true ∨ validCert ⟨name, false, true⟩ c now = true) := by
+  unfold conform at hr
+  simp only at hr
+  have hk := getCertificate_kinds w h a now
+  have ht := token_path_only_for_challenge_names w h a now
+  cases hres : (getCertificate w h a now).2.1 with
+  | served c' =>
+    cases a with
+    | none => obtain ⟨name, hn, _⟩ := (hk c').2 hres; simp at hn
+    | some name =>
+      simp only [hres] at hr
+      by_cases hv : validCert (certKeyOf h name) c' now
+      · simp only [hv, if_true, hres, Res.cert?, Option.some.injEq] at hr
+        subst hr
+        exact ⟨name, rfl, Or.inl hv⟩
+      · simp [hv, Res.cert?] at hr
+  | issued c' =>
+    simp only [hres] at hr
+    have : c' = c := by
+      cases a <;> simpa [hres, Res.cert?] using hr
+    subst this
+    obtain ⟨name, hn, hv⟩ := (hk c').1 hres
+    exact ⟨name, hn, Or.inl hv⟩
+  | token c' =>
+    simp only [hres] at hr
+    have : c' = c := by
+      cases a <;> simpa [hres, Res.cert?] using hr
+    subst this
+    obtain ⟨_, name, hn, hv⟩ := ht.1 c' (Or.inr hres)
+    refine ⟨name, hn, Or.inr ?_⟩
+    rcases hv with hv | hv
+    · -- a cache token certificate was validated; the in-memory alternative produces `.tokenMem`
+      subst hn
+      unfold getCertificate at hres
+      cases hno : nameOK h
+      · simp [hno] at hres
+      · simp only [hno, Bool.not_true, Bool.false_eq_true, if_false] at hres
+        cases hw : wantsTokenCert h
+        · simp only [hw, Bool.false_eq_true, if_false] at hres
+          cases hp : policyOK w name
+          · simp [hp] at hres
+          · simp only [hp, Bool.not_true, Bool.false_eq_true, if_false] at hres
+            exact absurd hres (lookupOrIssue_no_token w _ now c').1
+        · simp only [hw, if_true] at hres
+          exact (tokenPath_kinds w name now).2.1 c' hres
+    · exact hv
+  | tokenMem c' => cases a <;> simp [hres, Res.cert?] at hr
+  | errName => cases a <;> simp [hres, Res.cert?] at hr
+  | errIdna => cases a <;> simp [hres, Res.cert?] at hr
+  | errNoToken => cases a <;> simp [hres, Res.cert?] at hr
+  | errPolicy => cases a <;> simp [hres, Res.cert?] at hr
+  | errCache => cases a <;> simp [hres, Res.cert?] at hr
+  | errIssue => cases a <;> simp [hres, Res.cert?] at hr
+  | expiredNotServed => cases a <;> simp [hres, Res.cert?] at hr
+
+/-- `conform` and the code differ exactly on a stale `m.state` entry; events and the new state never differ -/
+theorem conform_vs_code (w : World) (h : Hello) (a : Option Bytes) (now : Int) :
+    (conform w h a now).1 = (getCertificate w h a now).1 ∧
+    (conform w h a now).2.2 = (getCertificate w h a now).2.2 ∧
+    ((conform w h a now).2.1 ≠ (getCertificate w h a now).2.1 →
+      ∃ name c, a = some name ∧ (getCertificate w h a now).2.1 = .served c ∧
+        w.state.lookup (certKeyOf h name).str = some (.ready c) ∧ validCert (certKeyOf h name) c now = false) := by
+  unfold conform
+  simp only
+  cases hres : (getCertificate w h a now).2.1 with
+  | served c =>
+    cases a with
+    | none => simp [hres]
+    | some name =>
+      simp only
+      by_cases hv : validCert (certKeyOf h name) c now
+      · simp [hv, hres]
+      · simp only [hv, Bool.false_eq_true, if_false, true_and]
+        intro _
+        refine ⟨name, c, rfl, rfl, ?_, by simpa using hv⟩
+        obtain ⟨n', hn', hor⟩ := (getCertificate_kinds w h (some name) now c).2 hres
+        simp only [Option.some.injEq] at hn'
+        subst hn'
+        rcases hor with h1 | h1
+        · exact h1
+        · exact absurd h1 hv
+  | _ => cases a <;> simp [hres]
 
 /-! ## 4. one creator per `certKey` (all interleavings) -/
 
